@@ -209,7 +209,7 @@ theorem C12_content (o : Ora) (i : In) (a : Answer) (h : attrQuery o i = .answer
     exact ⟨q, sp, subj, attrs, m, hq, hsp, hsubj, hui, hm, rfl, rfl, rfl, rfl, rfl, rfl, by simpa using hsign⟩
 
 theorem C12_source_current : Gen.Facts.aqChain = Expected.aqChain ∧ Consts.current = true ∧
-    FactsUtil.sameHashes ["provider.makeAttributeQueryResponse", "provider.makeAssertion", "provider.makeResponse", "provider.createPostSignature",
+    FactsUtil.sameHashes ["provider.makeAttributeQueryResponse", "provider.createPostSignature",
       "xml.DecodeAttributeQuery", "xml.WriteXMLMarshalled", "serviceprovider.ServiceProvider.ValidatePostSignature"] = true := ⟨by decide, by decide, by decide⟩
 
 /-- non-vacuity -/
